@@ -100,6 +100,15 @@ impl<I: Interner> Forest<I> {
                 assert!(state.stack.is_empty());
                 let answer = state.forest.answer(table, answer_index);
                 if !answer.subst.value.delayed_subgoals.is_empty() {
+                    // The answer may have been published while this table was
+                    // not the root of the stack; then nobody has evaluated its
+                    // delayed subgoals yet.
+                    if state.forest.tables[table].mark_refined(answer_index) {
+                        let answer = state.forest.answer(table, answer_index);
+                        if let Some(strand) = state.create_refinement_strand(table, answer) {
+                            state.forest.tables[table].enqueue_strand(strand);
+                        }
+                    }
                     return Err(RootSearchFail::InvalidAnswer);
                 }
                 Ok(CompleteAnswer {
@@ -294,6 +303,7 @@ impl<I: Interner> Forest<I> {
                                     ex_clause: resolvent,
                                     selected_subgoal: None,
                                     last_pursued_time: TimeStamp::default(),
+                                    refinement: false,
                                 };
                                 let canonical_strand =
                                     Self::canonicalize_strand_from(context, &mut infer, &strand);
@@ -340,6 +350,7 @@ impl<I: Interner> Forest<I> {
                             ex_clause,
                             selected_subgoal: None,
                             last_pursued_time: TimeStamp::default(),
+                            refinement: false,
                         };
                         let canonical_strand =
                             Self::canonicalize_strand_from(context, &mut infer, &strand);
@@ -667,6 +678,7 @@ impl<'forest, I: Interner> SolveState<'forest, I> {
                     ex_clause: strand.ex_clause.clone(),
                     selected_subgoal: Some(next_subgoal),
                     last_pursued_time: strand.last_pursued_time,
+                    refinement: strand.refinement,
                 };
                 let table = self.stack.top().table;
                 let canonical_next_strand =
@@ -700,6 +712,7 @@ impl<'forest, I: Interner> SolveState<'forest, I> {
                     self.context.program().interner(),
                     &self.forest.answer(subgoal_table, answer_index).subst,
                 );
+                let num_delayed = strand.ex_clause.delayed_subgoals.len();
                 match infer.apply_answer_subst(
                     self.context.program().interner(),
                     self.context.unification_database(),
@@ -710,6 +723,35 @@ impl<'forest, I: Interner> SolveState<'forest, I> {
                 ) {
                     Ok(()) => {
                         let ex_clause = &mut strand.ex_clause;
+
+                        // Keep each delayed subgoal once. A refinement strand
+                        // evaluates the delayed subgoals that an answer brings
+                        // along right away, unless it has taken them into
+                        // account already.
+                        let interner = self.context.program().interner();
+                        let new_delayed: Vec<_> =
+                            ex_clause.delayed_subgoals.drain(num_delayed..).collect();
+                        let mut delayed: Vec<_> = ex_clause
+                            .delayed_subgoals
+                            .iter()
+                            .map(|d| DeepNormalizer::normalize_deep(infer, interner, d.clone()))
+                            .collect();
+                        for delayed_subgoal in new_delayed {
+                            let normalized = DeepNormalizer::normalize_deep(
+                                infer,
+                                interner,
+                                delayed_subgoal.clone(),
+                            );
+                            if !delayed.contains(&normalized) {
+                                delayed.push(normalized);
+                                if strand.refinement {
+                                    ex_clause
+                                        .subgoals
+                                        .push(Literal::Positive(delayed_subgoal.clone()));
+                                }
+                                ex_clause.delayed_subgoals.push(delayed_subgoal);
+                            }
+                        }
 
                         // If the answer had was ambiguous, we have to
                         // ensure that `ex_clause` is also ambiguous. This is
@@ -886,11 +928,10 @@ impl<'forest, I: Interner> SolveState<'forest, I> {
                         && self.forest.tables[selected_subgoal.subgoal_table].coinductive_goal
                 );
 
-                canonical_strand
-                    .value
-                    .ex_clause
-                    .delayed_subgoals
-                    .push(subgoal);
+                let delayed_subgoals = &mut canonical_strand.value.ex_clause.delayed_subgoals;
+                if !delayed_subgoals.contains(&subgoal) {
+                    delayed_subgoals.push(subgoal);
+                }
 
                 #[cfg(chalk_verif)]
                 crate::verif::ev_strand("CycleCo", &canonical_strand);
@@ -1126,6 +1167,7 @@ impl<'forest, I: Interner> SolveState<'forest, I> {
                         // Delayed Trivial Self Cycle, Variant 3
                         // example).
 
+                        self.forest.tables[table].mark_refined(answer_index);
                         let answer = self.forest.answer(table, answer_index);
                         if let Some(strand) = self.create_refinement_strand(table, answer) {
                             #[cfg(chalk_verif)]
@@ -1192,8 +1234,9 @@ impl<'forest, I: Interner> SolveState<'forest, I> {
             answer.subst.clone(),
         );
 
-        let delayed_subgoals = delayed_subgoals
-            .into_iter()
+        let subgoals = delayed_subgoals
+            .iter()
+            .cloned()
             .map(Literal::Positive)
             .collect();
 
@@ -1204,13 +1247,14 @@ impl<'forest, I: Interner> SolveState<'forest, I> {
                 constraints: constraints
                     .as_slice(self.context.program().interner())
                     .to_vec(),
-                subgoals: delayed_subgoals,
-                delayed_subgoals: Vec::new(),
+                subgoals,
+                delayed_subgoals,
                 answer_time: TimeStamp::default(),
                 floundered_subgoals: Vec::new(),
             },
             selected_subgoal: None,
             last_pursued_time: TimeStamp::default(),
+            refinement: true,
         };
 
         Some(Forest::canonicalize_strand_from(
@@ -1536,6 +1580,7 @@ impl<'forest, I: Interner> SolveState<'forest, I> {
             binders,
             value: strand,
         } = canonical_strand;
+        let refinement = strand.refinement;
         let ExClause {
             subst,
             constraints,
@@ -1545,6 +1590,13 @@ impl<'forest, I: Interner> SolveState<'forest, I> {
             answer_time: _,
             floundered_subgoals,
         } = strand.ex_clause;
+        // The delayed subgoals of a refinement strand have all been evaluated
+        // (assuming each other, coinductively).
+        let delayed_subgoals = if refinement {
+            Vec::new()
+        } else {
+            delayed_subgoals
+        };
         // If there are subgoals left, they should be followed
         assert!(subgoals.is_empty());
         // We can still try to get an ambiguous answer if there are floundered subgoals
@@ -1683,6 +1735,7 @@ impl<'forest, I: Interner> SolveState<'forest, I> {
                     .value
                     .constraints
                     .is_empty(self.context.program().interner())
+                && answer.subst.value.delayed_subgoals.is_empty()
         };
 
         #[cfg(chalk_verif)]
